@@ -187,3 +187,53 @@ def spec_to_python(pkg, spec):
 
 def server_for(case, **kw):
     return RefServer(case["sdl"], seed=case.get("server_seed", 0), null_p=case.get("null_p", 0.2), **kw)
+
+
+class Session:
+    """generate -> import -> client; `failure` is set when one of the steps did not work."""
+
+    def __init__(self, case, scratch, server_kw=None, client_kw=None):
+        self.case = case
+        self.failure = None
+        self.gen = generate(case, scratch)
+        if not self.gen["ok"]:
+            self.failure = {"clause": "generation", "sig": self.gen["sig"], "msg": f"{self.gen['type']}: {self.gen['msg']}"}
+            return
+        try:
+            self.pkg = import_package(case, scratch)
+        except BaseException as exc:  # noqa: BLE001
+            self.failure = {"clause": "import", "sig": type(exc).__name__, "msg": repr(exc)[:400]}
+            return
+        self.server = server_for(case, **(server_kw or {}))
+        self.transport = Transport(lambda body, req: (200, self.server.handle(body)[0]))
+        self.client = make_client(self.pkg, case, self.transport, **(client_kw or {}))
+        self.ops = {o["name"]: o for o in case["ops"]}
+
+    def call(self, call):
+        """Returns dict(op, method, kwargs, value, exc, rec, request, problem)."""
+        op = self.ops[call["op"]]
+        out = {"op": op, "value": None, "exc": None, "rec": None, "request": None, "problem": None}
+        method = method_for(self.client, op["name"])
+        if method is None:
+            out["problem"] = {"clause": "method", "sig": "no-method", "msg": f"no unique method for operation {op['name']}"}
+            return out
+        kwargs = {}
+        for var, spec in call["args"].items():
+            p = param_for(method, var)
+            if p is None:
+                out["problem"] = {"clause": "method", "sig": "no-param", "msg": f"no unique parameter for ${var} of {op['name']}"}
+                return out
+            try:
+                kwargs[p] = spec_to_python(self.pkg, spec)
+            except Exception as exc:  # noqa: BLE001
+                out["problem"] = {"clause": "argument_build", "sig": type(exc).__name__, "msg": f"${var}: {exc}"[:300]}
+                return out
+        out["kwargs"] = kwargs
+        out["method"] = method
+        n0, r0 = len(self.server.calls), len(self.transport.requests)
+        out["value"], out["exc"] = run_call(self.case, method, kwargs)
+        if len(self.server.calls) > n0:
+            out["rec"] = self.server.calls[n0]
+        if len(self.transport.requests) > r0:
+            out["request"] = self.transport.requests[r0]
+        return out
